@@ -966,3 +966,25 @@ func countScenario(c *Check, s *Scenario) {
 		c.Inc("payloads_validated", int64(len(s.Result.Resps)))
 	}
 }
+
+// ArgFaultCorpus: the probe's failing input unmarshaler (scalar Boom: "err" fails, "panic"
+// panics while the field's arguments are decoded) at root query fields next to concurrent
+// siblings, twice in one operation, as a variable, and at the serial root fields of a mutation.
+func ArgFaultCorpus(prefix string) []*Scenario {
+	qs := []string{
+		`{ x: boomArg(b: "panic") s as { id } }`,
+		`{ x: boomArg(b: "err") s sn }`,
+		`{ x: boomArg(b: "panic") y: boomArg(b: "err") z: boomArg(b: "fine") a { id s } }`,
+		`query($b: Boom) { x: boomArg(b: $b) s }`,
+		`{ a { id } x: boomArg(b: "panic") y: boomArg(b: "panic") as { s } }`,
+	}
+	var out []*Scenario
+	for i, q := range qs {
+		var vars map[string]any
+		if strings.Contains(q, "$b") {
+			vars = map[string]any{"b": "panic"}
+		}
+		out = append(out, CorpusScenario(fmt.Sprintf("%s-argfault%d", prefix, i), q, vars))
+	}
+	return out
+}
